@@ -198,14 +198,29 @@ func TestVerifC31(t *testing.T) {
 		if _, err := c.Write([]byte(req)); err != nil {
 			return "HARNESS-ERROR write " + err.Error()
 		}
-		all, err := io.ReadAll(c)
-		if err != nil {
-			return "HARNESS-ERROR read " + err.Error()
+		// response head first: a failed upgrade keeps the connection open, do not wait for EOF then
+		var all []byte
+		buf := make([]byte, 4096)
+		for !bytes.Contains(all, []byte("\r\n\r\n")) {
+			n, err := c.Read(buf)
+			all = append(all, buf[:n]...)
+			if err != nil {
+				break
+			}
 		}
 		i := bytes.Index(all, []byte("\r\n\r\n"))
 		if i < 0 || !bytes.HasPrefix(all, []byte("HTTP/1.1 101 ")) {
+			select {
+			case <-results:
+			case <-time.After(5 * time.Second):
+			}
 			return "HARNESS-ERROR handshake " + strconv.Quote(string(all))
 		}
+		more, err := io.ReadAll(c)
+		if err != nil {
+			return "HARNESS-ERROR read " + err.Error()
+		}
+		all = append(all, more...)
 		rest := all[i+4:]
 		var res verifC31Result
 		select {
